@@ -23,6 +23,7 @@ RotOK(r) ==
         /\ NearMat(M3(t, r.m33), A, E16(t)) /\ NearMat(Upper3(t, r.m44), A, E16(t)) /\ Affine44(t, r.m44)
         /\ \A i \in 1..3, j \in 1..3 : r.m33[(i - 1) * 3 + j] = r.m44[(i - 1) * 4 + j]  \* same rotation, same bits
         /\ NearVec(Nums(t, r.qinv), one, E64(t))                                     \* q * inverse(q) = 1
+        /\ r.invert = r.inv /\ r.invself = 1                                          \* invert() is inverse() in place, returning *this
         /\ r.conj[1] = r.q[1] /\ \A i \in 2..4 : Num(t, r.conj[i]) = D!DNeg(q[i]) \/ D!DEq(Num(t, r.conj[i]), D!DNeg(q[i]))
         /\ (D!DLt(D!Dy(B!FromInt(-63), -6), q[1]) => NearVec(Nums(t, r.explog), q, E64(t)))   \* exp(log q) = q unless r near -1
         /\ NearUpToSign(Nums(t, r.axisangle), q, E64(t))
